@@ -40,6 +40,11 @@ pub fn c08(rep: &mut Report, tier: &str) {
     // many dashes, long names, long clusters, late positions
     push(rep, c08_lists(&["-", "a", "é"], 2, if quick { 5 } else { 6 }));
     push(rep, c08_lists(&["-", "a"], 3, 4));
+    // ASCII classes a classifier could treat specially (digits, '=', upper case, punctuation): seed C08-r10-2
+    push(rep, c08_lists(&C08_ASCII, 2, if quick { 4 } else { 5 }));
+    push(rep, c08_lists(&C08_ASCII, 3, if quick { 2 } else { 3 }));
+    // every printable ASCII character at every position of a single short token
+    push(rep, c08_lists(&C08_PRINTABLE, 1, if quick { 3 } else { 4 }));
     push(rep, crate::e3_long::c08_long());
     push(rep, crate::e3_long::c08_many_tokens());
 }
